@@ -6,7 +6,6 @@ import (
 	"fmt"
 	"go/token"
 	"go/types"
-	"math/big"
 	"sort"
 	"strings"
 
